@@ -544,6 +544,9 @@ class Collada(object):
                 library_loc = i + 1
 
         for arr, name in libraries:
+            # all objects are written into the first library of a kind
+            for extralib in self.xmlnode.findall(self.tag(name))[1:]:
+                self.xmlnode.getroot().remove(extralib)
             node = self.xmlnode.find(self.tag(name))
             if node is None:
                 if len(arr) == 0:
